@@ -7,6 +7,7 @@ import (
 	"go/constant"
 	"go/token"
 	"go/types"
+	"sort"
 	"strings"
 
 	"golang.org/x/tools/go/ssa"
@@ -172,6 +173,7 @@ func checkC10(c *Ctx, e *Env) {
 		}
 		ruleLocalZone(c, m, g, zoneFns)
 		ruleInvariantsReadOnly(c, m, g)
+		ruleConstructionDeterminism(c, m, g, cl)
 		for _, fn := range sortedFns(cl) {
 			if ex := excludedPkg(fnPkgPath(fn)); ex != "" && len(fn.Blocks) > 0 && g.isSubjectFn(fn) {
 				c.Violate("C10.CLOSURE", funcKey(fn), m.P.Pos(fn.Pos()), "consensus closure reaches a function of an excluded package ("+ex+") via "+g.PathTo(fn), nil)
@@ -353,8 +355,8 @@ func lintDeterminism(c *Ctx, m *Model, g *Graph, fn *ssa.Function, total map[str
 				c.Violate("C10.D2", fk+"#context."+cc.Method.Name(), p.Pos(in.Pos()), "the cancellation state of a context (Context."+cc.Method.Name()+") is read in the consensus closure: it is set by timers and the host process, not by the block; reached via "+g.PathTo(fn), nil)
 			}
 			switch pkg {
-			case "math/rand", "math/rand/v2", "crypto/rand":
-				c.Violate("C10.D2", fk+"#"+full, p.Pos(in.Pos()), "randomness source "+full+" in the consensus closure", nil)
+			case "math/rand", "math/rand/v2", "crypto/rand", "hash/maphash":
+				c.Violate("C10.D2", fk+"#"+full, p.Pos(in.Pos()), "randomness source "+full+" in the consensus closure (hash/maphash seeds are random per process)", nil)
 			case "sync", "sync/atomic":
 				c.Violate("C10.D3", fk+"#"+full, p.Pos(in.Pos()), "use of "+full+" (shared-memory concurrency) in the consensus closure", nil)
 			case "math":
@@ -1219,5 +1221,125 @@ func ruleInvariantsReadOnly(c *Ctx, m *Model, g *Graph) {
 	}
 	if bad == 0 {
 		c.Hold("C10.D9", shortPkg(fnPkgPath(roots[0]))+"#invariants-read-only", p.Pos(roots[0].Pos()), fmt.Sprintf("no ORM write and no bank mutator in the %d functions reachable from RegisterInvariants", n), nil)
+	}
+}
+
+// ruleConstructionDeterminism (D2 over the wiring): the objects the handlers run on — keepers, servers,
+// the x/data hasher — are built once per process by the module's RegisterServices and the exported New…
+// constructors. What those read from the process (environment, clock, random seeds, host, files) ends up in
+// fields the consensus code computes with: a per-process maphash seed changes every data id after a restart,
+// a gas constant taken from an environment variable makes validators disagree on out-of-gas (round-7 seeds).
+// So the closure of the construction roots is held to the same D2 list as the consensus closure.
+func ruleConstructionDeterminism(c *Ctx, m *Model, g *Graph, consensus map[*ssa.Function]bool) {
+	p := m.P
+	var roots []*ssa.Function
+	for _, pk := range p.RepoList {
+		if excludedPkg(pk.PkgPath) != "" {
+			continue
+		}
+		sp := p.ssaPkgs[pk.Types]
+		if sp == nil {
+			continue
+		}
+		for _, mem := range sp.Members {
+			switch x := mem.(type) {
+			case *ssa.Function:
+				if strings.HasPrefix(x.Name(), "New") && x.Object() != nil && x.Object().Exported() && g.isSubjectFn(x) {
+					roots = append(roots, x)
+				}
+			case *ssa.Type:
+				if !strings.HasSuffix(pk.PkgPath, "/module") {
+					continue
+				}
+				for _, recv := range []types.Type{x.Type(), types.NewPointer(x.Type())} {
+					ms := p.SSA.MethodSets.MethodSet(recv)
+					for _, name := range []string{"RegisterServices", "RegisterInvariants"} {
+						if sel := ms.Lookup(pk.Types, name); sel != nil {
+							if f := p.SSA.MethodValue(sel); f != nil {
+								roots = append(roots, f)
+							}
+						}
+					}
+				}
+			}
+		}
+	}
+	sort.Slice(roots, func(i, j int) bool { return funcKey(roots[i]) < funcKey(roots[j]) })
+	cl := g.Closure(roots)
+	n, bad := 0, 0
+	for _, fn := range sortedFns(cl) {
+		if !g.isSubjectFn(fn) || excludedPkg(fnPkgPath(fn)) != "" || isCanaryFn(fn) || consensus[fn] {
+			continue // functions of the consensus closure are linted by the main scan
+		}
+		n++
+		fk := funcKey(fn)
+		for _, b := range fn.Blocks {
+			for _, in := range b.Instrs {
+				ci, ok := in.(ssa.CallInstruction)
+				if !ok {
+					continue
+				}
+				pkg, name := calleePkgName(ci.Common())
+				full := pkg + "." + name
+				why, isBad := forbiddenCalls[full]
+				if full == "time.Now" {
+					if v := ci.Value(); v != nil && flowsOnlyToTelemetry(v) {
+						isBad = false
+					}
+				}
+				switch pkg {
+				case "math/rand", "math/rand/v2", "crypto/rand", "hash/maphash":
+					why, isBad = "randomness source", true
+				}
+				if isBad {
+					bad++
+					c.Violate("C10.D2", fk+"#construct:"+full, p.Pos(in.Pos()), "call to "+full+" ("+why+") while the objects the consensus code runs on are constructed (reached via "+g.PathTo(fn)+"): a value read from the process ends up in a keeper / server / hasher field and differs between nodes and across restarts", nil)
+				}
+			}
+		}
+	}
+	if bad == 0 {
+		c.Check(len(roots) > 0 && n > 0, "C10.D2", shortPkg(m.P.ModDir)+"#construction", "-", fmt.Sprintf("%d construction roots (module RegisterServices / RegisterInvariants, exported New… constructors), %d further hand-written functions in their closure: no environment, clock, randomness, host or file read feeds the objects the handlers run on", len(roots), n))
+	}
+}
+
+// ruleInvariantsStateOnly: a registered invariant is a predicate of the STATE — "never reports a failure in a
+// reachable state" cannot hold for a predicate that also reads the block clock, height or header, because
+// those move while the state stands still (round-7 seed C05-13: the basket invariant re-applied Put's date
+// criteria — evaluated at block time — to the credits a basket already holds; a sliding window or an updated
+// criterion then "breaks" a fully backed basket). No function reachable from RegisterInvariants reads
+// BlockTime / BlockHeight / BlockHeader / HeaderHash of the sdk context.
+func ruleInvariantsStateOnly(c *Ctx, m *Model, g *Graph, rule string) {
+	p := m.P
+	var roots []*ssa.Function
+	for _, f := range m.subjectFns(false) {
+		if f.Name() == "RegisterInvariants" && f.Signature.Recv() != nil {
+			roots = append(roots, f)
+		}
+	}
+	if len(roots) == 0 {
+		c.Undecide(rule, "RegisterInvariants", "-", "no RegisterInvariants method found")
+		return
+	}
+	n, bad := 0, 0
+	for _, fn := range sortedFns(g.Closure(roots)) {
+		if !g.isSubjectFn(fn) || isCanaryFn(fn) {
+			continue
+		}
+		n++
+		for _, ci := range callsIn(fn) {
+			pkg, name := calleePkgName(ci.Common())
+			if !strings.HasSuffix(pkg, "cosmos-sdk/types") {
+				continue
+			}
+			switch name {
+			case "Context.BlockTime", "Context.BlockHeight", "Context.BlockHeader", "Context.HeaderHash":
+				bad++
+				c.Violate(rule, funcKey(fn)+"#"+name, p.Pos(ci.Pos()), "a registered invariant reads "+name+": its verdict then depends on the clock / height, which change while the state does not — a state that satisfied it at one block fails it at another without any message; reached via "+g.PathTo(fn), nil)
+			}
+		}
+	}
+	if bad == 0 {
+		c.Hold(rule, shortPkg(fnPkgPath(roots[0]))+"#invariants-state-only", p.Pos(roots[0].Pos()), fmt.Sprintf("none of the %d functions reachable from RegisterInvariants reads block time, height or header: the registered invariants are predicates of the state alone", n), nil)
 	}
 }
